@@ -320,6 +320,9 @@ class LabeledUndirectedGraph : protected LabeledDirectedGraph<EdgeLabel> {
         Edges(const LabeledUndirectedGraph<EdgeLabel> &graph) : graph(graph) {}
 
         constEdgeIterator begin() const {
+            if (graph.getSize() == 0)
+                return end();
+
             VertexIndex endVertex = getEndVertex(graph);
 
             VertexIndex vertexWithFirstEdge = 0;
@@ -333,10 +336,19 @@ class LabeledUndirectedGraph : protected LabeledDirectedGraph<EdgeLabel> {
             return constEdgeIterator(graph, vertexWithFirstEdge, neighbour);
         }
         constEdgeIterator end() const {
+            if (graph.getSize() == 0)
+                return constEdgeIterator(graph, 0, emptySuccessors().end());
+
             VertexIndex lastVertex = getEndVertex(graph);
             return constEdgeIterator(
                 graph, lastVertex, graph.getOutNeighbours(lastVertex).end()
             );
+        }
+
+        // A graph without vertices has no neighbour list to point into.
+        static const Successors &emptySuccessors() {
+            static const Successors empty;
+            return empty;
         }
 
         static VertexIndex
